@@ -383,8 +383,8 @@ var panicExemptions = map[string]string{
 	"panic|core.SetParameters":                     "start-up configuration",
 	"panic|sys.SimpleSystem":                       "example / test constructor",
 	"panic|core.throwJavascript":                   "by design: the panic carries a JavaScript exception that otto catches and turns into a script error",
-	"panic|core.RunJavascript$14":                  "by design: the watchdog's interrupt function panics with Halt inside the otto runtime; RunJavascript's deferred recover turns it into an error (RECOVER-RESULT)",
-	"panic|core.RunJavascript$14$1":                "see RunJavascript$14",
+	"panic|core.RunJavascript$c":                  "by design: the watchdog's interrupt function panics with Halt inside the otto runtime; RunJavascript's deferred recover turns it into an error (RECOVER-RESULT)",
+	"panic|core.RunJavascript$c$c":                "see RunJavascript$c",
 	"index|(*core.Location).ListRules|field core.SearchResult.Bindingss[0]": "a SearchResult is only emitted with at least one binding (SEARCH-REMATCH: 0 < len(bss))",
 	"index|(*cron.Cron).Add|param schedule[1]":     "guarded by core.OneShotSchedule(schedule), which is false for the empty string",
 	"index|core.Log|append[1]":                     "args always holds at least the op key and the appended origin fields",
